@@ -490,6 +490,13 @@ func init() {
 	register("connect", mkConnect(false, false))
 	register("connectclean", mkConnect(true, false))
 	register("connectfull", mkConnect(true, true))
+	// sequences of attempts: established, lost, failed, retried — with few ways
+	// to fail, so that three faults in a row stay affordable
+	register("connectretry", func() *Scenario {
+		s := mkConnect(true, false)()
+		s.Faults = Faults{DialErr: true, Cut: true, NoResponse: true, Connacks: [][]byte{{0x20, 2, 0, 3}, {0x20, 2, 1, 0}}}
+		return s
+	})
 
 	mkWindow := func(m1, m2 int, preset uint) func() *Scenario {
 		return func() *Scenario {
